@@ -17,7 +17,7 @@ from symx.npproxy import NPProxy
 from symx.prove import Prover
 from symx.runner import Acc
 from symx.selftest import sparse_selftest
-from harness.common import bound, z, fval, sym_patterns, isclose
+from harness.common import real_code, RealCodeRaised, bound, z, fval, sym_patterns, isclose
 from harness.geom import DirStub, position_spec
 from harness.fgstub import FullSphereStub, make_fullgrid, gen_G, orbits
 
@@ -237,7 +237,7 @@ def numeric_violations(shape, model):
     import contextlib, io
     n_b, n_o, n_t = shape["n_b"], shape["n_o"], shape["n_t"]
     fg, sp_ = real_fullgrid(shape, model)
-    with contextlib.redirect_stdout(io.StringIO()):
+    with contextlib.redirect_stdout(io.StringIO()), real_code():
         A, B, D = fg.get_full_adjacency(), fg.get_full_borders(), fg.get_full_distances()
         V = fg.get_total_volumes()
     n = n_b * n_o * n_t
@@ -297,10 +297,10 @@ def numeric_violations(shape, model):
 def replay(cex):
     try:
         bad = numeric_violations(cex["shape"], cex.get("model", {}) or {})
-    except Exception as e:  # noqa: BLE001
-        if cex.get("kind") == "exception":
-            return {"reproduced": type(e).__name__ == cex.get("exc"), "detail": repr(e)}
-        return {"reproduced": True, "detail": f"real code raised {e!r}"}
+    except RealCodeRaised as e:
+        return {"reproduced": True, "detail": f"real code raised {e}"}
+    except Exception as e:  # noqa: BLE001 - the harness's own oracle failed on this model (overflow ...): not a verdict about the code
+        return {"reproduced": False, "detail": f"oracle could not be evaluated on this model: {e!r}"}
     return {"reproduced": bool(bad), "detail": f"failing on the real functions: {bad[:6]}"}
 
 
